@@ -514,7 +514,7 @@ static int cmd_id (const char *s)
 
 static int alarm_secs = 20 ;
 
-static int emb_notail = 0 ;
+static int emb_notail = 0, emb_wtrail = 0 ;
 static int parse_route (const char *r, long long *emb)
 {	*emb = 0 ;
 	if (!strcmp (r, "vio")) return R_VIO ;
@@ -522,7 +522,8 @@ static int parse_route (const char *r, long long *emb)
 	if (!strcmp (r, "fdk")) return R_FDK ;
 	if (!strcmp (r, "path")) return R_PATH ;
 	if (!strcmp (r, "pipe")) return R_PIPE ;
-	emb_notail = 0 ;
+	emb_notail = 0 ; emb_wtrail = 0 ;
+	if (!strncmp (r, "embw", 4)) { *emb = strtoll (r + 4, NULL, 0) ; emb_wtrail = 1 ; return R_EMB ; }	/* write : descriptor at offset k of a file that has more bytes after it */
 	if (!strncmp (r, "embz", 4)) { *emb = strtoll (r + 4, NULL, 0) ; emb_notail = 1 ; return R_EMB ; }	/* embedded file is the last thing in the container */
 	if (!strncmp (r, "emb", 3)) { *emb = strtoll (r + 3, NULL, 0) ; return R_EMB ; }
 	fprintf (stderr, "sfdrive: bad route %s\n", r) ; exit (2) ;
@@ -583,7 +584,14 @@ static void do_open (void)
 			if (mode != SFM_WRITE) write_all (fd, mf->data, mf->len) ;
 			if (mode == SFM_READ) for (long long i = 0 ; i < H->emb_tail ; i++) { unsigned char j = (unsigned char) (i * 17 + 3) ; write_all (fd, &j, 1) ; }
 			else H->emb_tail = 0 ;
-			lseek (fd, H->emb_off, SEEK_SET) ;
+			if (route == R_EMB && emb_wtrail && mode == SFM_WRITE)
+			{	/* 100 more bytes behind the descriptor position : the library appends at the end of the container */
+				for (int i = 0 ; i < 100 ; i++) { unsigned char j = (unsigned char) (i * 13 + 5) ; write_all (fd, &j, 1) ; }
+				lseek (fd, H->emb_off, SEEK_SET) ;
+				H->emb_off += 100 ;
+				}
+			else
+				lseek (fd, H->emb_off, SEEK_SET) ;
 			H->fd = fd ; H->dupfd = dup (fd) ;
 			fds_before = count_fds () ;
 			H->sf = sf_open_fd (fd, mode, &H->info, route == R_FDK ? 0 : 1) ;
